@@ -2,6 +2,7 @@ package rules
 
 import (
 	"go/constant"
+	"go/token"
 	"sort"
 	"strings"
 
@@ -90,16 +91,25 @@ type implCfg struct {
 	rts        []string // returnToStep
 	saw        bool     // at least one lexeme was emitted
 	done       bool     // EndTop emitted: the document stops reading
+	fields     map[string]string // other scanner fields with constant values (exact strings)
 }
 
 func (c implCfg) key() string {
-	return core.F("%s|%v|%s|%s|%v|%v", c.step, c.unfinished, strings.Join(c.stack, ","), strings.Join(c.rts, ","), c.saw, c.done)
+	var fs []string
+	for k, v := range c.fields {
+		fs = append(fs, k+"="+v)
+	}
+	sort.Strings(fs)
+	return core.F("%s|%v|%s|%s|%v|%v|%s", c.step, c.unfinished, strings.Join(c.stack, ","), strings.Join(c.rts, ","), c.saw, c.done, strings.Join(fs, ";"))
 }
 
 type implModel struct {
 	m         *scanModel
 	lt        *lexTables
 	trailing  bool
+	flags     map[string]constant.Value // option fields fixed for a run
+	zero      map[string]constant.Value // zero values of the scanner's basic-typed fields
+	assume    map[string]bool           // atom substring -> assumed truth
 	eof       []eofRule
 	obs       map[string]bool // kinds of stack observations seen
 	undecided string
@@ -156,6 +166,20 @@ func (im *implModel) leaf(cfg *implCfg, atEOF bool) func(absint.Sym) constant.Va
 				}
 			}
 		case "load":
+			if strings.HasPrefix(s.Name, "&s.") {
+				f := strings.TrimPrefix(s.Name, "&s.")
+				if v, ok := im.flags[f]; ok {
+					return v
+				}
+				if v, ok := cfg.fields[f]; ok {
+					return parseConst(v)
+				}
+				if f != "allowTrailingNonSpaceCharacters" && f != "unfinishedLiteral" && f != "index" && f != "dataSize" {
+					if z, ok := im.zero[f]; ok {
+						return z
+					}
+				}
+			}
 			switch s.Name {
 			case "&s.allowTrailingNonSpaceCharacters":
 				return constant.MakeBool(im.trailing)
@@ -188,6 +212,13 @@ func (im *implModel) selectPath(paths []scanPath, cfg *implCfg) (*scanPath, stri
 		ok := true
 		for _, a := range p.atoms {
 			v := absint.EvalWith(a.Cond, im.leaf(cfg, false))
+			if v == nil {
+				for sub, truth := range im.assume {
+					if strings.Contains(a.Cond.Key(), sub) {
+						v = constant.MakeBool(truth)
+					}
+				}
+			}
 			if v == nil || v.Kind() != constant.Bool {
 				return nil, "guard `" + a.Cond.Key() + "` is not determined by <stack, flags>"
 			}
@@ -256,6 +287,23 @@ func (im *implModel) stepByte(cfg implCfg, b int) (implCfg, bool, string) {
 	n := implCfg{step: cfg.step, unfinished: cfg.unfinished, saw: cfg.saw}
 	n.stack = append([]string(nil), cfg.stack...)
 	n.rts = append([]string(nil), cfg.rts...)
+	if len(cfg.fields) > 0 || len(p.fieldStores) > 0 {
+		n.fields = map[string]string{}
+		for k, v := range cfg.fields {
+			n.fields[k] = v
+		}
+		for _, fsr := range p.fieldStores {
+			if cst, ok := fsr.val.(absint.Const); ok {
+				if cst.V == nil {
+					n.fields[fsr.name] = "nil"
+				} else {
+					n.fields[fsr.name] = cst.V.ExactString()
+				}
+			} else {
+				n.fields[fsr.name] = "?"
+			}
+		}
+	}
 	for _, ps := range p.pushes {
 		n.rts = append(n.rts, ps)
 	}
@@ -877,4 +925,19 @@ func c12pairs(c *core.Ctx) {
 		ok := len(partners) == 1 && lt.opening[partners[0]]
 		c.Check(ok, R, "emitted:"+f, pos, core.F("closing lexeme %s has partners %v", f, partners), "a closing lexeme must have exactly one opening partner, else processFoundLexemeClosingTag panics with ErrIncorrectEndingOfTheLexicalEvent or pairs it with the wrong opener")
 	}
+}
+
+func parseConst(s string) constant.Value {
+	switch s {
+	case "true":
+		return constant.MakeBool(true)
+	case "false":
+		return constant.MakeBool(false)
+	case "?", "nil":
+		return nil
+	}
+	if v := constant.MakeFromLiteral(s, token.INT, 0); v.Kind() == constant.Int {
+		return v
+	}
+	return nil
 }
